@@ -207,6 +207,9 @@ class Path:
         if k >= self.max_decisions:
             raise EngineLimit('too many decisions on one path')
         self.stats.decisions += 1
+        if TRACE_FORKS == 'all':
+            site = 'D ' + _site() + ' :: ' + str(cond)[:80].replace('\n', ' ')
+            self.fork_sites[site] = self.fork_sites.get(site, 0) + 1
         if k < len(self.prefix):
             choice = self.prefix[k]
             self.decisions.append(choice)
@@ -569,6 +572,8 @@ class SInt:
     def __add__(self, o):
         if not _isnum(o):
             return NotImplemented
+        if type(o) is int and o == 0:
+            return self
         lo, hi = _ival(o)
         return mkint(self.e + iexpr(o), self.lo + lo, self.hi + hi)
 
@@ -577,6 +582,8 @@ class SInt:
     def __sub__(self, o):
         if not _isnum(o):
             return NotImplemented
+        if type(o) is int and o == 0:
+            return self
         lo, hi = _ival(o)
         return mkint(self.e - iexpr(o), self.lo - hi, self.hi - lo)
 
